@@ -203,6 +203,21 @@ Proof.
   - left. reflexivity.
 Qed.
 
+Lemma app_length_sub {A} (a b : list A) : length (a ++ b) - length a = length b.
+Proof. rewrite app_length. lia. Qed.
+
+Lemma parse_stmt_from_as_nosub n N A :
+  n <> 0 -> identb N = true -> identb A = true ->
+  parse_stmt (s_from_sp ++ repeat c_dot n ++ s_import_sp ++ N ++ s_as_sp ++ A) = Some (SFrom n [] N A).
+Proof.
+  intros Hn HN HA. pose proof (parse_stmt_from_as n [] N A (or_introl Hn) (Forall_nil _) HN HA) as H.
+  cbn [py_join] in H. rewrite app_nil_r in H. exact H.
+Qed.
+
+(* name the statement text under parse_stmt and state what it parses to *)
+Ltac parse_is H t :=
+  match goal with |- context [parse_stmt ?s] => assert (H : parse_stmt s = Some t) end.
+
 (* ------------------------------------------------------------------ one lemma per reference_* *)
 Section Refs.
   Variable w : world.
@@ -253,10 +268,9 @@ Section Refs.
         - apply Forall_app. split; [exact Hys | constructor; [exact Hx' | constructor]]. }
       exists [(alias, VMod ((root ++ cur) ++ (y0 :: ys') ++ [x]))]. split.
       + cbn [snd]. apply exec_all_one. unfold binds.
-        change (s_from_sp ++ b_dot :: py_join b_dot (y0 :: ys') ++ s_import_sp ++ x ++ s_as_sp ++ alias)
-          with (s_from_sp ++ (repeat c_dot 1 ++ py_join c_dot (y0 :: ys')) ++ s_import_sp ++ x ++ s_as_sp ++ alias).
-        rewrite parse_stmt_from_as; [| left; discriminate | exact Hys | exact Hx' | exact Hal].
-        cbn [exec_stmt]. rewrite Hbase. rewrite Himp. reflexivity.
+        parse_is Hps (SFrom 1 (y0 :: ys') x alias).
+        { exact (parse_stmt_from_as 1 (y0 :: ys') x alias (or_introl (Nat.neq_succ_0 0)) Hys Hx' Hal). }
+        rewrite Hps. cbn [exec_stmt]. rewrite Hbase. rewrite Himp. reflexivity.
       + cbn [fst]. apply resolve_via_alias; assumption.
   Qed.
 
@@ -268,8 +282,7 @@ Section Refs.
             (VCls ((root ++ ts) ++ [x]) C).
   Proof.
     intros Hr Hx HC W1 W2 W3 W4. unfold reference_ancestor.
-    replace (length ((ts ++ [x]) ++ rest) - length (ts ++ [x])) with (length rest) by (rewrite !app_length; lia).
-    rewrite last_snoc.
+    rewrite app_length_sub. rewrite last_snoc.
     destruct (ts ++ [x]) as [|t0 tr] eqn:E; [destruct ts; discriminate|]. cbv iota. rewrite <- E. clear E t0 tr.
     set (d := length rest).
     set (alias := b_us :: repeat b_us d ++ x ++ [b_us; b_us]).
@@ -277,16 +290,13 @@ Section Refs.
     { apply (identb_us_wrapped (S d) x); [discriminate | apply identb_chars, Hx]. }
     exists [(alias, VMod ((root ++ ts) ++ [x]))]. split.
     - cbn [snd]. apply exec_all_one. unfold binds.
-      replace (s_from_sp ++ (b_dot :: b_dot :: repeat b_dot d) ++ s_import_sp ++ x ++ s_as_sp ++ alias)
-        with (s_from_sp ++ (repeat c_dot (S (S d)) ++ py_join c_dot []) ++ s_import_sp ++ x ++ s_as_sp ++ alias)
-        by (cbn [py_join repeat]; rewrite app_nil_r; reflexivity).
-      rewrite parse_stmt_from_as; [| left; discriminate | constructor | exact Hx | exact Hal].
-      cbn [exec_stmt].
-      replace (root ++ (ts ++ [x]) ++ rest) with ((root ++ ts) ++ (x :: rest))
-        by (rewrite <- !app_assoc; reflexivity).
-      change (S (S d)) with (S (length (x :: rest))).
-      rewrite rel_base_up by (destruct root; [congruence | discriminate]).
-      rewrite app_nil_r. rewrite from_import_pkg by assumption. reflexivity.
+      parse_is Hps (SFrom (S (S d)) [] x alias).
+      { exact (parse_stmt_from_as_nosub (S (S d)) x alias (Nat.neq_succ_0 _) Hx Hal). }
+      rewrite Hps. cbn [exec_stmt].
+      assert (Hb : rel_base (root ++ (ts ++ [x]) ++ rest) (S (S d)) = Some (root ++ ts)).
+      { rewrite <- (app_assoc ts [x] rest). rewrite (app_assoc root ts). cbn [app].
+        apply (rel_base_up (root ++ ts) (x :: rest)). destruct root; [congruence | discriminate]. }
+      rewrite Hb. rewrite app_nil_r. rewrite from_import_pkg by assumption. reflexivity.
     - cbn [fst]. apply resolve_via_alias; assumption.
   Qed.
 
@@ -301,11 +311,9 @@ Section Refs.
     assert (Hal : identb alias = true) by (apply identb_us_wrapped; [exact Hd | apply identb_chars, HC]).
     exists [(alias, VCls root C)]. split.
     - cbn [snd]. apply exec_all_one. unfold binds.
-      replace (s_from_sp ++ b_dot :: repeat b_dot d ++ s_import_sp ++ C ++ s_as_sp ++ alias)
-        with (s_from_sp ++ (repeat c_dot (S d) ++ py_join c_dot []) ++ s_import_sp ++ C ++ s_as_sp ++ alias)
-        by (cbn [py_join repeat]; rewrite app_nil_r; reflexivity).
-      rewrite parse_stmt_from_as; [| left; discriminate | constructor | exact HC | exact Hal].
-      cbn [exec_stmt]. subst d. rewrite rel_base_up by exact root_nonnil.
+      parse_is Hps (SFrom (S d) [] C alias).
+      { exact (parse_stmt_from_as_nosub (S d) C alias (Nat.neq_succ_0 _) HC Hal). }
+      rewrite Hps. cbn [exec_stmt]. subst d. rewrite rel_base_up by exact root_nonnil.
       rewrite app_nil_r. unfold from_import, mod_attr. rewrite W1, W2. reflexivity.
     - cbn [fst]. unfold resolve_annotation. rewrite unquote_quoted. unfold resolve.
       rewrite parse_dotted_one by exact Hal. unfold lookup_name. cbn [lookup_env]. rewrite bytes_eqb_refl.
@@ -324,8 +332,7 @@ Section Refs.
     denotes w (root ++ sh ++ ra) (reference_cousin snake (sh ++ ra) (sh ++ rb) C) (VCls ((root ++ sh) ++ rb) C).
   Proof.
     intros Hcp Hra Hrb Hid HC Wp Wn Wc. unfold reference_cousin. rewrite Hcp.
-    replace (length (sh ++ ra) - length sh) with (length ra) by (rewrite app_length; lia).
-    rewrite skipn_length_app.
+    rewrite app_length_sub. rewrite skipn_length_app.
     destruct (snoc_cases rb) as [->|[ys [x ->]]]; [congruence|].
     apply Forall_app in Hid. destruct Hid as [Hys Hx]. inversion Hx as [|? ? Hx' _]; subst.
     rewrite removelast_snoc. rewrite (app_assoc sh ys [x]), last_snoc.
@@ -335,10 +342,9 @@ Section Refs.
     assert (Hal : identb alias = true) by (apply identb_us_wrapped; [exact Hd | apply snake_chars]).
     exists [(alias, VMod ((root ++ sh) ++ ys ++ [x]))]. split.
     - cbn [snd]. apply exec_all_one. unfold binds.
-      change (s_from_sp ++ (b_dot :: repeat b_dot d ++ py_join b_dot ys) ++ s_import_sp ++ x ++ s_as_sp ++ alias)
-        with (s_from_sp ++ (repeat c_dot (S d) ++ py_join c_dot ys) ++ s_import_sp ++ x ++ s_as_sp ++ alias).
-      rewrite parse_stmt_from_as; [| left; discriminate | exact Hys | exact Hx' | exact Hal].
-      cbn [exec_stmt]. rewrite (app_assoc root sh ra). subst d.
+      parse_is Hps (SFrom (S d) ys x alias).
+      { exact (parse_stmt_from_as (S d) ys x alias (or_introl (Nat.neq_succ_0 _)) Hys Hx' Hal). }
+      rewrite Hps. cbn [exec_stmt]. rewrite (app_assoc root sh ra). subst d.
       rewrite rel_base_up by (destruct root; [congruence | discriminate]).
       rewrite (app_assoc (root ++ sh) ys [x]).
       rewrite from_import_pkg; [reflexivity | | |].
